@@ -163,3 +163,147 @@ def rule_isdigit_int(ctx, rule_id, module_prefixes):
                     n += 1
                     run.ok(rule_id, key(fi.module.relpath, fi.qualname, "isdecimal:%s" % norm(t.func.value)))
     return n
+
+
+def loop_flag_sites(fi):
+    """[(loop, flag name, assignment node, ok?)] boolean flags accumulated over a loop in fi: a name that is False before the loop,
+    assigned inside it and read after it.  Inside the loop an assignment must keep what earlier iterations found: constant True,
+    `v = v or X`, `v |= X`; `v = X` lets the LAST iteration decide."""
+    out = []
+    body = list(body_walk(fi.node))
+    loops = [n for n in body if isinstance(n, (ast.For, ast.While))]
+    for lp in loops:
+        inner = set(id(x) for x in ast.walk(lp))
+        assigned = {}
+        for x in ast.walk(lp):
+            if isinstance(x, ast.Assign) and len(x.targets) == 1 and isinstance(x.targets[0], ast.Name):
+                assigned.setdefault(x.targets[0].id, []).append(x)
+            elif isinstance(x, ast.AugAssign) and isinstance(x.target, ast.Name):
+                assigned.setdefault(x.target.id, []).append(x)
+        for v, asgs in sorted(assigned.items()):
+            # False before the loop (same function, earlier line, outside the loop, not inside another loop that contains lp's
+            # initialisation per iteration -- handled by requiring the initialisation to be outside every loop containing lp)
+            inits = [x for x in body if isinstance(x, ast.Assign) and id(x) not in inner and len(x.targets) == 1
+                     and isinstance(x.targets[0], ast.Name) and x.targets[0].id == v and isinstance(x.value, ast.Constant)
+                     and x.value.value is False and x.lineno < lp.lineno]
+            if not inits:
+                continue
+            # an initialisation inside an enclosing loop makes the flag per-iteration of THAT loop: then only reads inside the
+            # enclosing loop count -- either way the accumulation over lp must be monotone
+            reads_after = [x for x in body if isinstance(x, ast.Name) and x.id == v and isinstance(x.ctx, ast.Load)
+                           and id(x) not in inner and x.lineno > lp.lineno]
+            if not reads_after:
+                continue
+            for a_ in asgs:
+                if isinstance(a_, ast.AugAssign):
+                    ok = isinstance(a_.op, ast.BitOr)
+                else:
+                    e = a_.value
+                    ok = (isinstance(e, ast.Constant) and e.value is True) or (
+                        isinstance(e, ast.BoolOp) and isinstance(e.op, ast.Or) and any(isinstance(o, ast.Name) and o.id == v for o in e.values))
+                out.append((lp, v, a_, ok))
+    return out
+
+
+def rule_loop_flags_monotone(ctx, rule_id, module_prefixes):
+    run = ctx.run
+    prog = ctx.prog
+    n = 0
+    for fi in sorted(prog.functions.values(), key=lambda f: f.id):
+        if fi.module.relpath.startswith("stix2/test") or not fi.module.name.startswith(tuple(module_prefixes)):
+            continue
+        seen = {}
+        for lp, v, a_, ok in loop_flag_sites(fi):
+            n += 1
+            k_ = seen[v] = seen.get(v, 0) + 1
+            run.check(ok, rule_id, key(fi.module.relpath, fi.qualname, "loop-flag-keeps-earlier-iterations:%s#%d" % (v, k_)),
+                      "`%s` is False before the loop, read after it, and assigned inside it from the current iteration alone: a later "
+                      "iteration overwrites what an earlier one found (the last element decides)" % v, file=fi.module.relpath,
+                      line=a_.lineno, function=fi.qualname, expected="%s = True (under its test)  or  %s = %s or <test>" % (v, v, v),
+                      found=short(a_, 100))
+    return n
+
+
+def _positional(fi, it):
+    """does the iterable `it` range over POSITIONS of a sequence?  range()/enumerate() directly, or a collection filled (add /
+    append / literal) with variables bound by range() / enumerate() / combinations(range()) loops of the same function"""
+    base = it
+    while isinstance(base, ast.Call) and norm(base.func) in ("sorted", "reversed", "list", "tuple", "set") and base.args:
+        base = base.args[0]
+    if isinstance(base, ast.Call) and norm(base.func) in ("range", "enumerate"):
+        return True
+    if not isinstance(base, ast.Name):
+        return False
+    pos_vars = set()
+    for lp in body_walk(fi.node):
+        if isinstance(lp, (ast.For, ast.comprehension)):
+            src = norm(lp.iter)
+            tg = lp.target
+            if src.startswith("enumerate(") and isinstance(tg, ast.Tuple) and tg.elts and isinstance(tg.elts[0], ast.Name):
+                pos_vars.add(tg.elts[0].id)
+            elif src.startswith("range(") and isinstance(tg, ast.Name):
+                pos_vars.add(tg.id)
+            elif "range(" in src or "enumerate(" in src:
+                pos_vars |= {n_.id for n_ in ast.walk(tg) if isinstance(n_, ast.Name)}
+    for x in body_walk(fi.node):
+        if isinstance(x, ast.Call) and isinstance(x.func, ast.Attribute) and x.func.attr in ("add", "append", "update", "extend") \
+                and norm(x.func.value) == base.id and any(isinstance(n_, ast.Name) and n_.id in pos_vars for a_ in x.args for n_ in ast.walk(a_)):
+            return True
+    return False
+
+
+def index_deletion_sites(fi):
+    """[(loop, deleting node, ok?)] loops `for i in IDX: del xs[i]` / `xs.pop(i)`: deleting by position shifts every later
+    position, so the positions must be visited in DESCENDING order (reversed(...), sorted(..., reverse=True), a range with a
+    negative step) -- or the loop must stop after the first deletion."""
+    out = []
+    for lp in body_walk(fi.node):
+        if not (isinstance(lp, ast.For) and isinstance(lp.target, ast.Name)):
+            continue
+        i = lp.target.id
+        dels = []
+        for x in ast.walk(lp):
+            if isinstance(x, ast.Delete):
+                for t in x.targets:
+                    if isinstance(t, ast.Subscript) and isinstance(t.slice, ast.Name) and t.slice.id == i:
+                        dels.append((x, t.value))
+            if isinstance(x, ast.Call) and isinstance(x.func, ast.Attribute) and x.func.attr == "pop" and len(x.args) == 1 \
+                    and isinstance(x.args[0], ast.Name) and x.args[0].id == i:
+                dels.append((x, x.func.value))
+        if dels and not _positional(fi, lp.iter):
+            continue                      # keyed deletion (a mapping): no positions shift
+        for d, recv in dels:
+            it = lp.iter
+            desc = False
+            if isinstance(it, ast.Call):
+                fn = norm(it.func)
+                if fn == "reversed":
+                    desc = True
+                if fn == "sorted" and any(k.arg == "reverse" and norm(k.value) == "True" for k in it.keywords):
+                    desc = True
+                if fn == "range" and len(it.args) == 3 and norm(it.args[2]).startswith("-"):
+                    desc = True
+                if fn in ("list", "tuple", "set", "sorted") and it.args and norm(it.args[0]) in (norm(recv), norm(recv) + ".keys()"):
+                    desc = True          # iterating a copy of a mapping's keys: keyed, not positional
+            stops = any(isinstance(x, (ast.Break, ast.Return)) for x in ast.walk(lp))
+            out.append((lp, d, desc or stops))
+    return out
+
+
+def rule_index_deletion_descending(ctx, rule_id, module_prefixes):
+    run = ctx.run
+    prog = ctx.prog
+    n = 0
+    for fi in sorted(prog.functions.values(), key=lambda f: f.id):
+        if fi.module.relpath.startswith("stix2/test") or not fi.module.name.startswith(tuple(module_prefixes)):
+            continue
+        k_ = 0
+        for lp, d, ok in index_deletion_sites(fi):
+            n += 1
+            k_ += 1
+            run.check(ok, rule_id, key(fi.module.relpath, fi.qualname, "positions-deleted-in-descending-order#%d" % k_),
+                      "elements are deleted by position while the positions are visited in ascending (or unknown) order: after the "
+                      "first deletion every later position names another element -- the wrong operands disappear, or IndexError",
+                      file=fi.module.relpath, line=d.lineno, function=fi.qualname,
+                      expected="for i in reversed(sorted(positions)): del xs[i]", found=short(lp.iter, 80))
+    return n
